@@ -71,7 +71,10 @@ theorem c20_smaller_first (specs : List Spec) (i j : Nat) (hi : i < (load specs)
     · have := List.pairwise_iff_getElem.mp (c20_loaded specs).2.1 j i hj hi h
       rw [this] at hlt; exact Bool.noConfusion hlt
 
-/-- **the identity of a plugin is its configured ENTRY, not its name**: every configured entry that is loadable is
+/-- model lemma: **the identity of a plugin is its configured ENTRY, not its name** (a corollary of the permutation in
+    `c20_loaded`; `load` is the hand-written `sort ∘ filter`, so "nothing is de-duplicated" holds of the MODEL by
+    construction — a de-duplicating loader leaves the extracted constants unchanged and is caught only dynamically, by
+    the load stream's twin entries against the real `load_plugins`): every configured entry that is loadable is
     loaded exactly as many times as it is configured — also two entries that are equal in everything the model sees
     (the same dotted name listed twice; two classes with the same class name and `Plugin.name` from different
     modules) — and an entry that is not loadable is not loaded at all.  Nothing is de-duplicated. -/
